@@ -219,6 +219,7 @@ class Ctx:
         self.hooks = {}
         self.keep = []         # keep z3 refs alive (ids are reused otherwise)
         self.side = []         # undecided definedness side conditions of every executed operation (witness-search heuristic)
+        self.exp_overflow = None   # C18 only: exp(t) is +inf above this threshold (float64 overflow), see sexp_ovf
         self.ite_cap = 6       # If-nodes lifted out of one exponent at most (2^n cases); the bijection harnesses raise it
 
     def fresh(self, name, sort=None):
@@ -858,6 +859,31 @@ def sexp(ctx, v):
     return with_nan(r, nn) if (nn is not False and not isinstance(v, float)) else r
 
 
+def sexp_ovf(ctx, v):
+    """exp as computed by the `exp` / `expm1` primitives.  With ctx.exp_overflow = L (C18: L = log of the largest float64) the result carries
+    the infinity kind +inf for arguments above L, so that a later 0 * exp(..) (the cotangent of an unselected `where` branch) is recognised as
+    NaN.  Off by default: everywhere else floats are exact reals."""
+    r = sexp(ctx, v)
+    lim = getattr(ctx, "exp_overflow", None)
+    if lim is None:
+        return r
+    t, o, i = split(v)
+    if not is_z(t):
+        try:
+            big = Fraction(t) > Fraction(lim)
+        except Exception:  # noqa
+            big = False
+        return join(Fraction(0), o, 1) if (big and not is_z(i) and i == 0) else r
+    rt, ro, ri = split(r)
+    over = DEC.decide(toreal(t) > z3.RealVal(str(Fraction(lim))))
+    if over is False:
+        return r
+    if over is True and not is_z(ri) and ri == 0:
+        return join(Fraction(0), ro, 1)
+    zri = toz(ri) if is_z(ri) else z3.IntVal(int(ri))
+    return with_nan(join(rt, ro, z3.If(z3.And(zri == 0, toz(over)), z3.IntVal(1), zri)), nan_of(r))
+
+
 def _sexp_p(ctx, v):
     t, o, i = split(v)
     if not isinstance(v, (P, float)):
@@ -1038,7 +1064,16 @@ def slog(ctx, v):
         if i == -1:
             return float("nan")
         return join(l, ok)
-    return join(l, band(ok, i != -1), z3.If(i == 1, z3.IntVal(1), z3.IntVal(0)))
+    # symbolic infinity kind: log(+inf) = +inf, log(-inf) = NaN (definitely), otherwise the log of the finite value (with its own
+    # definite-NaN / log(0) = -inf tracking)
+    r0 = slog(ctx, t)
+    rt, ro, ri0 = split(r0)
+    n0 = nan_of(r0)
+    zi0 = toz(ri0) if is_z(ri0) else z3.IntVal(int(ri0))
+    okk = band(o, bite(i == 1, True, bite(i == -1, False, ro)))
+    inf = z3.If(i == 1, z3.IntVal(1), z3.If(i == 0, zi0, z3.IntVal(0)))
+    nn = bor(i == -1, band(i == 0, n0)) if n0 is not False else (i == -1)
+    return with_nan(join(rt, okk, inf), band(o, nn) if o is not True else nn)
 
 
 def _ssqrt_plain(ctx, u):
@@ -1313,7 +1348,7 @@ class Interp:
                 return r
             return emap(seln, *ins)
         if p == "exp":
-            return E(lambda a: sexp(ctx, a))
+            return E(lambda a: sexp_ovf(ctx, a))
         if p == "exp2":
             raise Unsupported("exp2")
         if p == "log":
@@ -1321,7 +1356,7 @@ class Interp:
         if p == "log1p":
             return E(lambda a: slog(ctx, add(Fraction(1), a)))
         if p == "expm1":
-            return E(lambda a: sub(sexp(ctx, a), Fraction(1)))
+            return E(lambda a: sub(sexp_ovf(ctx, a), Fraction(1)))
         if p == "tanh":
             def th(a):
                 e2 = sexp(ctx, mul(Fraction(2), a))
